@@ -5,19 +5,19 @@ import json, subprocess
 PBT = "model-based property testing (proptest)"
 DONE = {
  "C01": dict(level="exploration",
-  text="Generated pairs of reachable replica states (memory/file, both initiators, default and generated split-factor/max-set-size through the config hook) are reconciled message by message; termination bound, equality of both final states with the order-free merge of the reference model, mirrored counters, a silent second session and store self-consistency are asserted. The property quantifies over all state pairs and configurations, which only generated search reaches.",
+  text="Generated pairs of reachable replica states (memory/file, both initiators, default and generated split-factor/max-set-size through the config hook) are reconciled message by message; termination bound, equality of both final states with the order-free merge of the reference model, mirrored counters, a silent second session, store self-consistency and untouched bystander documents in the same stores are asserted. Timestamps come from T0+{0..7} (ties, late older arrivals) and from a wide table (0, byte boundaries of both encodings, the future bound). The property quantifies over all state pairs and configurations, which only generated search reaches.",
   note="Trusts the reference model (DESIGN.md §2.3), ignores fingerprint collisions; non-default parameters only through the verif-hooks override; bounded to <= 40 entries per side.",
   technique=PBT + ": two-replica sessions vs. order-free merge oracle"),
  "C02": dict(level="exploration",
-  text="Generated histories (local insert/delete with a hooked clock, remote inserts, re-offers, reopen) are checked step by step against an independent reference model of the newest-wins / prefix-deletion rule, and generated entry sets are applied in several permutations with duplicates and compared with the order-free merge. PBT is the right level: the property quantifies over all histories, and the oracle is a 40-line executable model.",
+  text="Generated histories (local insert/delete with a hooked clock, remote inserts, re-offers, reopen) are checked step by step against an independent reference model of the newest-wins / prefix-deletion rule, and generated entry sets are applied in several permutations with duplicates and compared with the order-free merge. 40 % of the histories are observed between steps through point lookups only, so that consecutive offers share one write transaction (the full scans commit it). PBT is the right level: the property quantifies over all histories, and the oracle is a 40-line executable model.",
   note="Trusts ed25519 determinism (predicting locally created entries), redb, and the reference model of DESIGN.md §2.3; bounded to <= 60 steps, <= 3 authors, short keys over a 4-letter alphabet plus derived prefix/0xFF neighbours.",
   technique=PBT + ": step-wise differential against a reference model + permutation metamorphic check"),
  "C07": dict(level="exploration",
-  text="Generated histories of capability imports (Read/Write in any order, repeated, for three documents), opens, closes, write attempts, remote inserts, secret export and store reopen run against Store/Replica and against the store actor; a three-state capability model with Write absorbing predicts every reply, the listed kinds and every document's contents after every step.",
+  text="Generated histories of capability imports (Read/Write in any order, repeated, for three documents), opens, closes, write attempts, remote inserts, secret export, store reopen and store mutations that fail (settings for unknown documents) run against Store/Replica and against the store actor; a three-state capability model with Write absorbing predicts every reply, the listed kinds and every document's contents after every step (half of the histories: only after a reopen and at the end, because the observing reads commit the open transaction).",
   note="Bounded to 3 documents and <= 60 steps; 'reopen' of an in-memory store hands the same Store to a new actor.",
   technique=PBT + ": history vs. capability state-machine model"),
  "C13": dict(level="exploration",
-  text="Histories (entries arriving in any timestamp order, deletions, reopen, document removal and re-creation) are checked after every step: reported heads = per-author maxima of the entries held, has_news_for_us = number of reported authors that are unknown or strictly newer. Generated head sets (authors sharing timestamps) are round-tripped without limit and, under generated limits, checked for size, subset, newest-that-fit and maximality with an independent size computation.",
+  text="Histories (entries arriving in any timestamp order, deletions, reopen, document removal and re-creation) are checked after every step: reported heads = per-author maxima of the entries held, has_news_for_us = number of reported authors that are unknown or strictly newer. Generated head sets (up to 12 authors, and 100..320 authors so that the list prefix of the encoding grows to two bytes; authors sharing timestamps; limits also placed exactly at, one below and one above the encoded size of the k newest heads) are round-tripped without limit and, under generated limits, checked for size, subset, newest-that-fit and maximality with an independent size computation.",
   note="Limits start at 1 byte; any key at the head timestamp is accepted as head key.",
   technique=PBT + ": invariant over histories + round-trip / optimality oracle for the heads encoding"),
  "C15": dict(level="exploration",
@@ -37,7 +37,7 @@ DONE = {
   note="Older databases are emulated by table deletion; the redb 2.x tuple-format migration is left to the repository's own tests.",
   technique=PBT + ": metamorphic (delete derived tables, reopen) + model oracle"),
  "C03": dict(level="exploration",
-  text="A validly signed entry is tampered in every way the statement lists (bit flips / byte changes of each field and signature, borrowed or swapped signatures, other real keys or non-curve points as ids, wrong signing secrets, timestamps around now+10min under a pinned clock, the four emptiness combinations) and offered both as a single remote insert and inside crafted reconciliation messages through the store actor with a subscriber; acceptance, stored state and events must coincide with an independently evaluated validity predicate on both paths. All single-bit flips of one base entry are enumerated exhaustively in every run.",
+  text="A validly signed entry is tampered in every way the statement lists (bit flips / byte changes of each field and signature, borrowed or swapped signatures, other real keys or non-curve points as ids, every combination of claimed namespace id and signing secret (own/foreign), wrong author secrets, timestamps around now+10min under a pinned clock, the four emptiness combinations) and offered both as a single remote insert and inside crafted reconciliation messages through the store actor with a subscriber; acceptance, stored state and events must coincide with an independently evaluated validity predicate on both paths, and no other document of the receiving store may hold anything afterwards. All single-bit flips of one base entry are enumerated exhaustively in every run.",
   note="Trusts ed25519 (signatures are verified by the oracle with iroh::PublicKey::verify over independently assembled bytes); forged entries are built through the public serde encoding.",
   technique=PBT + " + exhaustive single-bit-flip enumeration: metamorphic tampering vs. validity-predicate oracle on two ingress paths"),
  "C12": dict(level="exploration",
@@ -45,7 +45,7 @@ DONE = {
   note="Channels have capacity 4096 so the actor never blocks; a post-state that differs from the model is attributed to C02 and only model-independent clauses are judged.",
   technique=PBT + ": event-sequence oracle from the reference model over observed pre-states"),
  "C14": dict(level="exploration",
-  text="Sequential client histories over three documents covering every request kind of the store handle, plus a concurrent variant (two client threads; Wing-Gong linearizability search against the same model); a per-document model {exists, handles, sync, subscribers, entries} predicts each reply's success class, close's boolean, get_state and the contents; failed requests must change nothing; the store returned by shutdown must hold every acknowledged write.",
+  text="Sequential client histories over three documents covering every request kind of the store handle, plus a concurrent variant (two client threads; Wing-Gong linearizability search against the same model) and a pipelined variant (one client enqueues a batch without awaiting any reply; replies and final contents must equal sequential execution in issue order); a per-document model {exists, handles, sync, subscribers, entries} predicts each reply's success class, close's boolean, get_state and the contents; failed requests (including store mutations that fail inside the store, e.g. settings for unknown documents) must change nothing; the store returned by shutdown must hold every acknowledged write.",
   note="Sequential variant: one client, replies-in-request-order is checked as 'each reply reflects all earlier requests'. Concurrent variant: two client threads, <= 5 requests each on one document; the recorded history must be linearizable w.r.t. the model whatever interleaving the OS produced (verdict independent of the interleaving, coverage of interleavings is whatever the OS gives).",
   technique=PBT + ": history vs. open/close/sync state-machine model; linearizability check for concurrent clients"),
  "C09": dict(level="exploration",
@@ -53,7 +53,7 @@ DONE = {
   note="The encoder is exercised only as the crate uses it (FramedWrite::send). libFuzzer runs are pinned only approximately by -seed/-runs; a saved artifact is converted into a JSON replay and judged by the release-build oracle.",
   technique="property testing (proptest) with round-trip / independent-encoder oracles + coverage-guided fuzzing (libFuzzer via cargo-fuzz) of the decoders"),
  "C10": dict(level="fault_enumeration",
-  text="Scripted peers play every frame sequence of length <= 3 (thorough <= 4) over a 9-symbol alphabet (handshake for a known / unknown document, live replies of a real replica, unexpected well-formed messages, aborts, undecodable / oversized / truncated frames, close), plus generated longer ones, against the real accepting side (run + into_outcome, every accept decision) and the real initiating side over in-memory streams; and the real initiator and acceptor talk through a proxy that injects, before every frame index on either side, one of: replica closed, sync disabled, store actor stopped (with the exit-pause hook so that the next request lands in the shutdown window), stream cut inside the frame as EOF or as reset. Completion within a watchdog, absence of panics on every thread, abort frame and untouched store on decline, and mirrored counters / merged stores in fault-free runs are asserted.",
+  text="Scripted peers play every frame sequence of length <= 3 (thorough <= 4) over a 9-symbol alphabet (handshake for a known / unknown document, live replies of a real replica, unexpected well-formed messages, aborts, undecodable / oversized / truncated frames, close), plus generated longer ones, against the real accepting side (run + into_outcome, every accept decision) and the real initiating side over in-memory streams; and the real initiator and acceptor talk through a proxy that injects, before every frame index on either side, one of: replica closed, sync disabled, store actor stopped (with the exit-pause hook so that the next request lands in the shutdown window), stream cut inside the frame as EOF or as reset. Completion within a watchdog, absence of panics on every thread, abort frame and untouched store on decline, and mirrored counters / merged stores in fault-free runs are asserted. A third family drives two real live actors (documents exist in both stores, real start_sync / leave) through schedules of declined, lost and failed sessions and asserts that a node at which no session finished successfully shows no trace of them in its store.",
   note="QUIC streams are replaced by tokio duplex streams; a hang must reproduce three times to be reported; functional equality is asserted only for fault-free runs.",
   technique="exhaustive small-scope enumeration of frame scripts and fault positions + generated longer scripts (proptest), completion/no-panic/differential oracles"),
  "C08": dict(level="exploration",
@@ -65,11 +65,11 @@ DONE = {
   note="Trusts redb's commit atomicity (torn pages are out of scope); a crash is modelled as a copy of the file between two store calls of the single-threaded store.",
   technique="fault enumeration (crash point x commit placement, exhaustive per generated history) with a metamorphic witness-run oracle"),
  "C11": dict(level="exploration",
-  text="Two real live actors are driven through generated schedules of dial decisions, request/reply delivery and loss, and independent success/failure of both ends of each session; the harness owns the network and feeds synthetic results to the real completion handlers. Invariants over the history: one session at a time per pair, exactly one of two back-to-back simultaneous requests allowed, resync dials only after a refused report and every refused report followed up, Idle and probe-able at quiescence, NotFound for a non-syncing document.",
+  text="Two real live actors are driven through generated schedules of dial decisions, request/reply delivery and loss, and independent success/failure of both ends of each session; the harness owns the network and feeds synthetic results to the real completion handlers. Invariants over the history: one session at a time per pair, exactly one of two back-to-back simultaneous requests allowed, resync dials only after a refused report and every refused report followed up, Idle and probe-able at quiescence, NotFound for a non-syncing document. 3 % of the schedules run in lifecycle mode: the documents really exist in both stores and are started / left through the real start_sync / leave, and the schedule also leaves and re-joins the document (at quiescence) and queues / completes content downloads; a left document must stay un-synced (requests NotFound, no dials) whatever completes later.",
   note="connect_and_sync / handle_connection themselves are replaced by synthetic results (their QUIC behaviour is not explored); handlers are atomic as in the actor loop.",
   technique=PBT + ": schedule exploration of the two-node coordination state machine with history invariants"),
  "C04": dict(level="exploration",
-  text="2..=5 replicas with skewed clocks go through generated histories of local writes and deletions, arbitrary (lost, duplicated, reordered) deliveries of written entries, reconciliation sessions cut after a generated number of messages and restarts of file-backed replicas; then complete sessions are swept along a generated connected pair set until nothing moves. At every step every stored entry must be byte-identical to a locally written one; at quiescence all replicas must equal the order-free merge of all accepted local writes, within n+2 sweeps.",
+  text="2..=5 replicas with skewed clocks go through generated histories of local writes and deletions, arbitrary (lost, duplicated, reordered) deliveries of written entries, reconciliation sessions cut after a generated number of messages and restarts of file-backed replicas; then complete sessions are swept along a generated connected pair set until nothing moves. A fifth of the histories run with every replica behind a store actor: writes, deliveries and restarts through SyncHandle, sessions through the real initiator / acceptor over in-memory streams that a proxy cuts after the generated number of frames. At every step every stored entry must be byte-identical to a locally written one; at quiescence all replicas must equal the order-free merge of all accepted local writes, within n+2 sweeps.",
   note="'Eventually' is checked as safety at quiescence of the closing sweeps; gossip is modelled as per-entry delivery through insert_remote_entry; skews within +-290 s.",
   technique=PBT + ": multi-replica history exploration with convergence-to-merge oracle at quiescence"),
  "C05": dict(level="exploration",
@@ -94,7 +94,7 @@ def main():
         hooks=dict(guard="verif-hooks (cargo feature of iroh-docs)",
             enable="the harness depends on iroh-docs { path = \"/repo\", features = [\"verif-hooks\"] }",
             baseline_off_cmd="cd /repo && (cargo nextest run --workspace --no-fail-fast --tool-config-file pb:/w/lib/nextest.toml --profile pb --test-threads 8 --offline || cargo test --workspace --no-fail-fast --offline)",
-            source_commits=[hooks_commit, hooks_commit2], add_only=True),
+            source_commits=[hooks_commit, hooks_commit2, "0ea3e6c", "0601798"], add_only=True),
         engines=[dict(name="dv", path="/verif/harness", serves_properties=[c['property_id'] for c in checks],
             kind_free_text="Rust binary: proptest 1.11 strategies driven through TestRunner with fixed seeds, 16 worker processes, JSON replay files, reference model + differential oracles")],
         checks=checks,
